@@ -70,8 +70,14 @@ fn main() {
             let mut c = code; let mut codes = Vec::new();
             for _ in 0..n { codes.push(c % 7); c /= 7; }
             if codes.iter().filter(|x| **x == 1).count() > 1 || codes.iter().filter(|x| **x == 2).count() > 1 { continue; }
+            // the source thread may itself be a branch: its second frame is then the lineage record of ITS source (naming a message that is
+            // not a message of this thread)
+            for is_branch in [false, true] {
+            if is_branch && n > 3 { continue; }
             let mut parent = vec![Event { id: "c".into(), session_id: "parent".into(), timestamp_ms: 0, seq: 0, kind: EventKind::ContinuityCreated { workspace: "ws".into(), title: None } }];
-            for (i, k) in codes.iter().enumerate() { parent.push(frame(i as u64 + 1, *k)); }
+            if is_branch { parent.push(Event { id: "lin".into(), session_id: "parent".into(), timestamp_ms: 0, seq: 1, kind: EventKind::ContinuityBranched { parent_thread_id: "grand".into(), parent_seq: 3, parent_message_id: Some("gm".into()), actor_id: "u".into(), origin: "o".into() } }); }
+            let off = parent.len() as u64;
+            for (i, k) in codes.iter().enumerate() { parent.push(frame(i as u64 + off, *k)); }
             let head = parent.last().unwrap().seq;
             let mut selectors: Vec<(Option<String>, Option<u64>)> = vec![(None, None), (Some("a".into()), None), (Some("b".into()), None), (Some("a".into()), Some(0)), (Some("c".into()), None)];
             for e in parent.iter().filter(|e| !is_msg(e)).take(2) { selectors.push((Some(e.id.clone()), None)); }
@@ -133,6 +139,7 @@ fn main() {
                         from_mid, from_seq, res.as_ref().ok().map(|t| (t.1, t.2.clone())), p);
                     return;
                 }
+            }
             }
             }
         }
